@@ -1,5 +1,7 @@
 import PfVerif.Audit.Tool
 import PfVerif.Props.C09
 import PfVerif.Lemmas.C09Modules
+import PfVerif.Lemmas.C09Factory
 #audit_module PfVerif.Props.C09
 #audit_module_ns PfVerif.Lemmas.C09Modules PfVerif.C09Modules
+#audit_module_ns PfVerif.Lemmas.C09Factory PfVerif.C09Factory
